@@ -48,7 +48,7 @@ import (
 
 const (
 	c07Timeout = 8 * time.Second
-	c07Slot    = phase0.Slot(100) // epoch 3 with 32 slots per epoch
+	c07Slot    = phase0.Slot(96) // the first slot of epoch 3 (32 slots per epoch): the previous epoch is one slot away
 )
 
 type c07Node struct {
@@ -796,8 +796,8 @@ func c07Check(st *c07Strat, e *c07Env, r *mc.Result) mc.Verdict {
 					cnt[a.k]++
 				}
 			}
-			for k, c := range cnt {
-				if c >= e.threshold && e.threshold > 0 {
+			for _, k := range []byte("ABCGKIJH") { // fixed order: the message must not depend on map iteration
+				if c := cnt[k]; c >= e.threshold && e.threshold > 0 {
 					return fail("error-despite-threshold-reached", fmt.Sprintf("returned an error although %d nodes reported %c within the timeout (threshold %d)", c, k, e.threshold))
 				}
 			}
@@ -832,8 +832,8 @@ func c07Check(st *c07Strat, e *c07Env, r *mc.Result) mc.Verdict {
 		if st.thresh && cntLE[e.ret] < e.threshold {
 			return fail("below-threshold", fmt.Sprintf("used a value reported by %d node(s), below the threshold", cntLE[e.ret]))
 		}
-		for k, c := range cntLT {
-			if c > cntLE[e.ret] {
+		for _, k := range []byte("ABCGKIJH") { // fixed order: the message must not depend on map iteration
+			if c := cntLT[k]; c > cntLE[e.ret] {
 				return fail("not-most-frequent", fmt.Sprintf("returned %c (%d) although %c had been reported %d times", e.ret, cntLE[e.ret], k, c))
 			}
 		}
